@@ -36,9 +36,11 @@ type Ctx struct {
 	cgCHA *callgraph.Graph
 	cgVTA *callgraph.Graph
 
-	funcDecls  map[types.Object]*ast.FuncDecl
-	litNames   map[*ast.FuncLit]string
-	AliasNotes []string
+	funcDecls     map[types.Object]*ast.FuncDecl
+	callerCache   map[string]map[string]bool
+	valueUseCache map[string]bool
+	litNames      map[*ast.FuncLit]string
+	AliasNotes    []string
 }
 
 var curCtx *Ctx
